@@ -178,6 +178,7 @@ EntryOK(st, p, v) == LET fs == st.fs  n == fs[p]  e == v.e IN
    /\ (LinkKindSettled(fs, p) => /\ e.dir = TF(n.k = "dir" \/ n.tk = "dir") /\ e.file = TF(n.k = "file" \/ n.tk = "file")
                                  /\ e.ldir = TF(n.k = "link" /\ n.tk = "dir") /\ e.lfile = TF(n.k = "link" /\ n.tk = "file"))
    /\ v.nf = e /\ v.f1nf = v.f1                                   \* follow(false) is a no-op, also after follow(true)
+   /\ ("fc" \in DOMAIN v => v.fc = v.f1)                         \* "exactly once": also through a clone of the followed entry
    /\ IF n.k = "link"
       THEN /\ e.alt = PV(n.t) /\ (n.t = Parent(p) \/ ~TextSettled(fs, p) \/ e.rel = [p |-> RelC(n.t, Parent(p)), c |-> "t", abs |-> "f"])
            /\ v.f1.path = PV(n.t) /\ v.f1.alt = PV(p) /\ v.f1.following = "t"       \* swapped exactly once
